@@ -154,6 +154,8 @@ def run(ck):
             return
         ck.log("cluster up, database created after %.0fs" % (time.time() - t0))
 
+        sent = {}       # value -> time its first request was sent
+        last_bad = []   # the complete list of wrong points of the last failing check
         acked = {}      # timestamp -> last acknowledged value
         maybe = {}      # timestamp -> set of values written but not acknowledged after the last acknowledged one
         history = []
@@ -163,6 +165,7 @@ def run(ck):
             val[0] += 1
             v = val[0]
             line = ("m,t=a v=%di %d" % (v, ts)).encode()
+            sent[v] = round(time.time() - t0, 3)
             end = time.time() + budget
             while True:
                 st, body = http("POST", base + "/write?db=db0", data=line, timeout=30)
@@ -211,6 +214,7 @@ def run(ck):
                     bad = [("query failed", err)]
                 if time.time() > end:
                     history.append(("read-bad", label, bad[:5]))
+                    last_bad[:] = bad
                     return False
                 time.sleep(2)
 
@@ -303,12 +307,59 @@ def run(ck):
                 (("read", e[1], {(k - T0) // 1000000000: v for k, v in e[2].items()}, e[3]) if e[0] == "read" else e)
                 for e in history if e[0] in ("ack", "noack", "read", "kill", "restart", "pause", "resume")]
         if not ok:
-            ck.violation({"kind": "direct-oracle-cluster", "what": "acknowledged point not readable with its latest value at: %s" % fails,
-                          "history": [e for e in history if e[0] != "read"], "converted_history": conv})
+            sig = replay_race_signature(history, last_bad, sent)
+            opened = getattr(ck, "c05_open", lambda fid: None)
+            if sig and opened("C05-restart-replay-after-newer-entries"):
+                ck.known_finding("C05-restart-replay-after-newer-entries",
+                                 "the restart replay of a rejoining member is not ordered before the entries raft publishes after the restart: an older "
+                                 "write re-applied by the replay overwrites a newer acknowledged write of the same point on that replica for good")
+                ck.cov["black_box_cluster"]["replay_race_seen"] = {"store": sig[0], "kill_at": sig[1], "restart_at": sig[2], "failed_checks": fails,
+                                                                   "wrong_points": [list(b) for b in last_bad[:8]]}
+            else:
+                ck.violation({"kind": "direct-oracle-cluster", "what": "acknowledged point not readable with its latest value at: %s" % fails,
+                              "matched_signature": "C05-restart-replay-after-newer-entries" if sig else None,
+                              "history": [e for e in history if e[0] != "read"], "converted_history": conv})
     finally:
         for p in reversed(procs):
             p.sig(signal.SIGCONT)
             p.kill()
+
+
+def replay_race_signature(history, bad, sent=None):
+    """finding C05-restart-replay-after-newer-entries on a cluster history: some store R was killed at tk and restarted at tr
+    (before the failing read), and EVERY wrong point reads as R's state at its kill - the last value sent for that point
+    before tk (absent if none) - while the acknowledged value was written after tk and no later than 60 s after tr.
+    Returns (store, tk, tr) or None."""
+    if not bad or any(b[0] == "query failed" for b in bad):
+        return None
+    writes = {}      # ts -> [(time, value, acked?)]
+    for e in history:
+        if e[0] == "ack":
+            writes.setdefault(e[1], []).append((e[3], e[2], True))
+        elif e[0] == "noack":
+            writes.setdefault(e[1], []).append((e[4], e[2], False))
+    kills = [(e[1], e[2]) for e in history if e[0] == "kill"]
+    restarts = [(e[1], e[2]) for e in history if e[0] == "restart"]
+    for store, tk in kills:
+        trs = [t for s2, t in restarts if s2 == store and t > tk]
+        if not trs:
+            continue
+        tr = min(trs)
+        okall = True
+        for ts, v, got in bad:
+            ws = writes.get(ts, [])
+            acked_before = [val for (t, val, a) in ws if t < tk and a]
+            base = max(acked_before) if acked_before else None
+            # R's state at its kill: the last value acknowledged before tk, or a later one whose request was sent before tk
+            # (a write in flight at the kill)
+            states = {base} | {val for (_t, val, _a) in ws if (sent or {}).get(val, 1e18) < tk and (base is None or val > base)}
+            tv = [t for (t, val, a) in ws if val == v and a]
+            if not (got in states and got != v and tv and tk < tv[0] <= tr + 60):
+                okall = False
+                break
+        if okall:
+            return (store, tk, tr)
+    return None
 
 
 def model_acceptance(ck, history, T0):
